@@ -4,6 +4,7 @@ import (
 	"bytes"
 	"encoding/json"
 	"fmt"
+	"math/rand"
 	"os"
 	"testing"
 
@@ -17,6 +18,8 @@ import (
 	ibcexported "github.com/cosmos/ibc-go/v11/modules/core/exported"
 	ibctm "github.com/cosmos/ibc-go/v11/modules/light-clients/07-tendermint"
 	ibctesting "github.com/cosmos/ibc-go/v11/testing"
+
+	"verif/harness/lib"
 )
 
 // ---- case table of spec/funcsB/MC_Merkle.tla -------------------------------------------------------------------
@@ -134,6 +137,19 @@ func newMerkleWorld(t *testing.T, doc MerkleDoc) *merkleWorld {
 	path := ibctesting.NewPath(a, b)
 	path.Setup()
 	w := &merkleWorld{t: t, coord: coord, path: path, nk: doc.NK, proofs: map[string]*commitmenttypes.MerkleProof{}}
+	// seed-driven extra entries below the universe keys: they change the shape of the IAVL tree (depth, rotations), not
+	// the neighbourhood of the universe keys
+	rng := rand.New(rand.NewSource(int64(lib.EnvInt("VERIF_SEED", 1))))
+	if extra := lib.EnvInt("VERIF_EXTRA", 0); extra > 0 {
+		store := b.GetContext().KVStore(b.GetSimApp().GetKey(ibcexported.StoreKey))
+		for range extra {
+			k := fmt.Appendf(nil, "u/%x", rng.Uint64()>>uint(rng.Intn(56)))
+			v := make([]byte, 1+rng.Intn(40))
+			rng.Read(v)
+			store.Set(k, v)
+		}
+		coord.CommitBlock(b)
+	}
 	for _, c := range doc.Contents {
 		ctx := b.GetContext()
 		store := ctx.KVStore(b.GetSimApp().GetKey(ibcexported.StoreKey))
@@ -482,8 +498,8 @@ func RunMerkle(t *testing.T, doc MerkleDoc, emit func(any)) {
 					}
 				}
 			}
-			if line.RD != "err" {
-				line.ErrD = ""
+			if line.RD != "err" || lib.EnvStr("VERIF_VERBOSE", "") == "" {
+				line.ErrD = "" // error texts are never judged; kept only for debugging runs
 			} else if len(line.ErrD) > 120 {
 				line.ErrD = line.ErrD[:120]
 			}
